@@ -418,6 +418,11 @@ func encInts(v []int) string {
 // real session, and directly (HandleXMPP on a token reader) with both end-of-input framings.
 func (c *ctx) children(ps []Pat, stanzaXML string, cons []int, class string) {
 	c.dispatch(ps, stanzaXML, cons, nil, "session", class)
+	if strings.Count(stanzaXML, "<") > 6000 {
+		// the call-by-call model of the replay buffer appends token by token (quadratic in the
+		// driver): the largest stanzas go through the session only
+		return
+	}
 	c.dispatch(ps, stanzaXML, cons, nil, "sep", class)
 	c.dispatch(ps, stanzaXML, cons, nil, "eof", class)
 	// some of the invoked handlers fail: every later child is still dispatched, the failed
